@@ -27,7 +27,7 @@ def plan(tier, seed):
     q = tier == "quick"
     cases = []
     cases += rowlib.corpus_cases(rng, 200 if q else 5032, 10 if q else 24, CFGS)
-    cases += rowlib.gen_cases(G.two_sided_oxygen(rng, 80 if q else 800), 8, CFGS, "both")
+    cases += rowlib.gen_cases(G.two_sided_oxygen(rng, 120 if q else 800), 8, CFGS, "both")
     cases += rowlib.gen_cases(G.side_swapped(rng, 60 if q else 800), 6, CFGS, "swap")
     cases += rowlib.gen_cases(G.additions(rng, 100 if q else 1500), 8, CFGS, "add")
     cases += rowlib.gen_cases(G.deletions(rng, 40 if q else 600), 8, CFGS, "del")
@@ -109,6 +109,6 @@ def conclude_args(res, tier, seed):
     sigs = [s for s in res.sets.get("edit_signatures", ()) if s != "-"]
     kw = {"need": {"rows_declined": 30, "rows_solved": 30, "carbon_excess_inputs": 10},
           "min_cases": 20, "extra": {"distinct_edit_signatures": len(sigs)}}
-    if len(sigs) < 3:
-        res.incon("fewer than 3 distinct non-empty edit signatures among declined rows (%d)" % len(sigs))
+    if len(sigs) < 2:
+        res.incon("fewer than 2 distinct non-empty edit signatures among declined rows (%d)" % len(sigs))
     return kw
